@@ -141,3 +141,17 @@ package dag
 //@   trusted
 //@   purefn
 //@   opt interior_ok
+
+// Ghost log of Apply calls (C10): which operation was applied to which snapshot, in order.
+//@ ghost var applyCount int
+//@ ghost var applied map[int]Operation
+//@ ghost var appliedOn map[int]int
+// Apply may change the snapshot in any way except its list of operations (every implementation under
+// contract has a modifies clause without it), and is logged.
+//@ func OperationWithApply.Apply
+//@   modifies * except all(bug.Snapshot.Operations), allelems(Operation), allelems(bug.Operation)
+//@   ensures [logged] applyCount == old(applyCount) + 1 && applied == update(old(applied), old(applyCount), recv) && appliedOn == update(old(appliedOn), old(applyCount), snapshot)
+
+//@ func (*Entity).Id
+//@   trusted
+//@   modifies nothing
